@@ -302,7 +302,7 @@ def generate(rng, cfg):
                     continue
                 fs.append(f)
                 cur = F.apply(cur, f)
-            trace.append([c, "deliver", {"src": src, "doc": doc, "faults": fs, "as": rng.choice(["bytes", "bytes", "str"]),
+            trace.append([c, "deliver", {"src": src, "doc": doc, "faults": fs, "as": rng.choice(["bytes", "bytes", "bytes", "str", "str", "str-surrogates"]),
                                          "multiple": rng.random() < 0.4,
                                          "entry": rng.choice(["Calendar", "Calendar", "Calendar", "Component", "Event"])}])
     return {"cfg": {"provider": provider}, "trace": trace}
@@ -553,6 +553,10 @@ def execute(run, res):
             if a["as"] == "str":
                 payload = data.decode("utf-8", "replace")
                 res.probe("delivered_as_str")
+            elif a["as"] == "str-surrogates":
+                # a caller that decoded the file with errors='surrogateescape': lone surrogates in the text
+                payload = data.decode("utf-8", "surrogateescape")
+                res.probe("delivered_as_str")
             before_ids = set(W.cache_ids())
             entry = a.get("entry", "Calendar")
             res.ops["entry:" + entry] += 1
@@ -746,7 +750,7 @@ def simplify_step(step):
     if op == "deliver":
         for i in range(len(a["faults"])):
             yield [c, op, dict(a, faults=a["faults"][:i] + a["faults"][i + 1:])]
-        if a["as"] == "str":
+        if a["as"] != "bytes":
             yield [c, op, dict(a, **{"as": "bytes"})]
         if a["multiple"]:
             yield [c, op, dict(a, multiple=False)]
